@@ -66,6 +66,9 @@ func (NetH) Gen(prop string, seed uint64, tier string) *hx.Case {
 	if r.Chance(0.3) {
 		cfg.TimerP = 0.05
 	}
+	if r.Chance(0.25) {
+		cfg.PCT, cfg.PCTSteps = r.Range(1, 4), []int{1000, 10000, 100000}[r.Intn(3)]
+	}
 	cfg.Peers = 1 + r.Pick(50, 25, 15, 10)
 	var ops []json.RawMessage
 	id := 0
@@ -467,7 +470,7 @@ func (NetH) Run(t *testing.T, c *hx.Case) *hx.Outcome {
 		n.bad = true
 	}
 
-	scfg := simrt.Config{Seed: cfg.SchedSeed, YieldP: cfg.YieldP, TimerP: cfg.TimerP, MaxConsec: cfg.MaxConsec, StepBudget: 80_000_000}
+	scfg := simrt.Config{Seed: cfg.SchedSeed, YieldP: cfg.YieldP, TimerP: cfg.TimerP, MaxConsec: cfg.MaxConsec, StepBudget: 80_000_000, PCT: cfg.PCT, PCTSteps: cfg.PCTSteps}
 	now0 := int64(tip.Time) + 600
 	res := simrt.Run(scfg, func() {
 		simrt.Sleep(time.Unix(now0, 0).Sub(time.Now()))
@@ -561,10 +564,14 @@ func (NetH) Run(t *testing.T, c *hx.Case) *hx.Outcome {
 				if g != nil && len(g.Held) > 0 && !n.bad {
 					viol("handler.lock-held", "peer %d: the connection goroutine re-enters Read() holding %d lock(s): the handler of the previous message returned with a lock still held", p, len(g.Held))
 				}
-				if d := simrt.Steps() - lastRead[p]; d > n.maxStep {
-					n.maxStep = d
+				if g != nil {
+					// work done by this goroutine itself since its previous Read (does not depend on the scheduling
+					// mode or on what other goroutines did in between)
+					if d := g.Pts - lastRead[p]; d > n.maxStep {
+						n.maxStep = d
+					}
+					lastRead[p] = g.Pts
 				}
-				lastRead[p] = simrt.Steps()
 			}
 			simrt.Go(func() {
 				oc.Run()
@@ -707,12 +714,18 @@ func (NetH) Run(t *testing.T, c *hx.Case) *hx.Outcome {
 		ol = append(ol, s)
 	}
 	out.Sample = map[string]any{"peers": nc.Peers, "messages": ol, "yield_p": cfg.YieldP, "max_steps_per_message": n.maxStep}
-	out.Probe("max_steps_between_reads", 0)
+	{
+		b := 0
+		for v := n.maxStep; v > 1; v >>= 1 {
+			b++
+		}
+		out.Probe(fmt.Sprintf("max_points_between_reads<2^%02d", b+1), 1)
+	}
 	if !out.Absorb("C18", "history", &res) {
 		return out
 	}
 	if n.maxStep > 2_000_000 {
-		out.Violate("C18", "handler.unbounded", "a single message kept a connection goroutine busy for %d scheduler steps", n.maxStep)
+		out.Violate("C18", "handler.unbounded", "between two reads a connection goroutine passed %d synchronisation points (lock, channel, timer or file operations): a handler loops without a bound that the message size explains", n.maxStep)
 	}
 	out.StateHash = fmt.Sprintf("%d/%d", len(msgs), n.maxStep/1000)
 	return out
